@@ -23,3 +23,5 @@ pub mod crashpool;
 #[global_allocator]
 static GLOBAL: alloctrack::Tracking = alloctrack::Tracking;
 pub mod c13;
+pub mod specbin;
+pub mod c03;
